@@ -248,6 +248,8 @@ def run(ctx):  # noqa: C901, PLR0912, PLR0915
     from . import common
     # the type and scope lists that the filter compares are the items the peer sent (element content: any white space separates)
     common.element_text_lists_split_on_whitespace(ctx, 'C14.R6')
+    common.readers_test_only_for_none(ctx, 'C14.R3')   # MetadataVersion 0 is a version
+    common.descriptor_classes_hold_no_shared_state(ctx, 'C14.R5')
     common.codec_keeps_no_state(ctx, 'C14.R2', 'sdc11073.pysoap.msgreader.MessageReader', 'message reader')
     common.log_templates_are_constant(ctx, 'C14.R1', ['sdc11073.wsdiscovery'])   # a log call that raises ends the handling of a datagram
     # ------------------------------------------------------------------ R6
